@@ -56,6 +56,14 @@ func init() {
 	RegisterOracle("C14", func() Oracle { return newC14Oracle() })
 	RegisterProbeApp("C14", func(s *Sim, r *Replica) cmtapi.Application { return c14ProbeFor(s, r, false) })
 	RegisterProbeApp("C14", func(s *Sim, r *Replica) cmtapi.Application { return c14ProbeFor(s, r, true) })
+	// C10: the state the validator election reads is captured on every replica, so that a failed
+	// election can be judged against the documented precondition (Sim.electionFailure).
+	RegisterProbeApp("C10", func(s *Sim, r *Replica) cmtapi.Application {
+		if s.elect == nil {
+			s.elect = newC14Oracle()
+		}
+		return &c14Probe{o: s.elect, rep: r.Idx}
+	})
 }
 
 func c14ProbeFor(s *Sim, r *Replica, post bool) cmtapi.Application {
@@ -132,6 +140,10 @@ type c14Input struct {
 	Runtimes      []*registry.Runtime                          `json:"runtimes"`
 	PrevVals      map[signature.PublicKey]*scheduler.Validator `json:"prev_vals"`
 	Slashed       bool                                         `json:"slashed"`
+	// VRF backend: the nodes that submitted a proof during the previous epoch (sorted) and whether
+	// that epoch's input was of high quality (committee elections allowed).
+	VRFProvers  []signature.PublicKey `json:"vrf_provers,omitempty"`
+	VRFCanElect bool                  `json:"vrf_can_elect,omitempty"`
 }
 
 // c14Output is the result of the scheduler's BeginBlock.
@@ -198,6 +210,10 @@ func (o *c14Oracle) capturePre(rep int, ctx *cmtapi.Context) {
 		o.caps[rep] = map[int64]*c14Capture{}
 	}
 	o.caps[rep][c.Height] = c
+	if o.s == nil {
+		// (stand-alone use by Sim.electionFailure: nothing consumes the captures)
+		delete(o.caps[rep], c.Height-3)
+	}
 	bc := ctx.BlockContext()
 	c.Time, c.Proposer, c.Misbehavior = bc.Time, append([]byte{}, bc.ProposerAddress...), len(bc.ValidatorMisbehavior)
 	fail := func(what string, err error) { c.Err = fmt.Sprintf("%s: %v", what, err) }
@@ -217,6 +233,22 @@ func (o *c14Oracle) capturePre(rep int, ctx *cmtapi.Context) {
 		return
 	}
 	in.BeaconBackend = bp.Backend
+	if bp.Backend == beacon.BackendVRF {
+		vs, err := bs.VRFState(ctx)
+		if err != nil {
+			fail("vrf state", err)
+			return
+		}
+		if vs != nil && vs.PrevState != nil {
+			for id, pi := range vs.PrevState.Pi {
+				if pi != nil {
+					in.VRFProvers = append(in.VRFProvers, id)
+				}
+			}
+			sort.Slice(in.VRFProvers, func(i, j int) bool { return bytes.Compare(in.VRFProvers[i][:], in.VRFProvers[j][:]) < 0 })
+			in.VRFCanElect = vs.PrevState.CanElectCommittees
+		}
+	}
 	ss := schedulerState.NewImmutableState(ctx.State())
 	if in.Sched, err = ss.ConsensusParameters(ctx); err != nil {
 		fail("scheduler parameters", err)
@@ -582,6 +614,14 @@ func newC14Elig(in *c14Input) *c14Elig {
 	return e
 }
 
+// proved reports whether the node submitted a VRF proof during the previous epoch.
+func (e *c14Elig) proved(id signature.PublicKey) bool {
+	i := sort.Search(len(e.in.VRFProvers), func(i int) bool { return bytes.Compare(e.in.VRFProvers[i][:], id[:]) >= 0 })
+	return i < len(e.in.VRFProvers) && e.in.VRFProvers[i].Equal(id)
+}
+
+func (e *c14Elig) vrf() bool { return e.in.BeaconBackend == beacon.BackendVRF }
+
 func (e *c14Elig) expired(i int) bool { return e.in.Nodes[i].Expiration < e.in.Epoch }
 func (e *c14Elig) frozen(i int) bool  { return e.in.Status[i].FreezeEndTime > 0 }
 
@@ -661,6 +701,8 @@ func c14CheckValidators(st *core.Stats, c *c14Capture) *core.Violation {
 		stake    *quantity.Quantity
 		eligible int
 		elected  int
+		// all counts the eligible validator nodes whether or not they submitted a VRF proof.
+		all int
 	}
 	ents := map[staking.Address]*entInfo{}
 	get := func(addr staking.Address) *entInfo {
@@ -668,6 +710,24 @@ func c14CheckValidators(st *core.Stats, c *c14Capture) *core.Violation {
 			ents[addr] = &entInfo{addr: addr, stake: e.escrow(addr)}
 		}
 		return ents[addr]
+	}
+	// VRF backend: when at least MinValidators eligible validator nodes submitted a proof during the
+	// previous epoch, the validator nodes are ordered by their hashed proofs and only those nodes
+	// are candidates; otherwise the election falls back to the per-epoch entropy (ADR 0010).
+	vrfPath := false
+	if e.vrf() {
+		withPi := 0
+		for i, n := range in.Nodes {
+			if n.HasRoles(node.RoleValidator) && !e.frozen(i) && !e.expired(i) && e.stakeOK(staking.NewAddress(n.EntityID)) && e.proved(n.ID) {
+				withPi++
+			}
+		}
+		vrfPath = withPi >= in.Sched.MinValidators
+		if vrfPath {
+			st.Inc("probe.c14.vrf.validators_ordered_by_hashed_proofs")
+		} else {
+			st.Inc("probe.c14.vrf.validator_election_fell_back_to_entropy")
+		}
 	}
 	for i, n := range in.Nodes {
 		if !n.HasRoles(node.RoleValidator) {
@@ -681,8 +741,12 @@ func c14CheckValidators(st *core.Stats, c *c14Capture) *core.Violation {
 			st.Inc("probe.c14.validator_node_excluded_expired")
 		case !e.stakeOK(addr):
 			st.Inc("probe.c14.validator_node_excluded_insufficient_stake")
+		case vrfPath && !e.proved(n.ID):
+			st.Inc("probe.c14.vrf.validator_node_without_proof_not_a_candidate")
+			get(addr).all++
 		default:
 			get(addr).eligible++
+			get(addr).all++
 		}
 	}
 	// (1) Every elected validator is eligible.
@@ -743,7 +807,18 @@ func c14CheckValidators(st *core.Stats, c *c14Capture) *core.Violation {
 		}
 		capacity += wantOf(ei)
 	}
-	if want := min(capacity, p.MaxValidators); len(out.Pending) != want {
+	if vrfPath {
+		// (A validator without a proof is not a candidate of a proof-ordered election, but the
+		// property does not forbid electing it: only the lower bound is judged.)
+		capAll := 0
+		for _, ei := range list {
+			capAll += min(ei.all, p.MaxValidatorsPerEntity)
+		}
+		if n := len(out.Pending); n > min(capAll, p.MaxValidators) {
+			return c14Viol("validator-order", "set-overfull", fmt.Sprintf("height %d epoch %d: %d validators elected although only %d eligible validator nodes (within the per-entity limit %d) exist and MaxValidators is %d", h, in.Epoch, n, capAll, p.MaxValidatorsPerEntity, p.MaxValidators))
+		}
+	}
+	if want := min(capacity, p.MaxValidators); (!vrfPath && len(out.Pending) != want) || (vrfPath && len(out.Pending) < want) {
 		return c14Viol("validator-order", "set-not-full", fmt.Sprintf("height %d epoch %d: %d validators elected although %d eligible validator nodes (within the per-entity limit %d) exist and MaxValidators is %d", h, in.Epoch, len(out.Pending), capacity, p.MaxValidatorsPerEntity, p.MaxValidators))
 	}
 	if capacity > p.MaxValidators {
@@ -845,9 +920,20 @@ func c14CheckCommittees(st *core.Stats, c *c14Capture) (int, *core.Violation) {
 	in, out := &c.In, &c.Out
 	e := newC14Elig(in)
 	h := c.Height
-	if in.Sched.DebugForceElect != nil || in.BeaconBackend != beacon.BackendInsecure {
+	if in.Sched.DebugForceElect != nil || (in.BeaconBackend != beacon.BackendInsecure && in.BeaconBackend != beacon.BackendVRF) {
 		st.Inc("probe.c14.committee_checks_skipped_unmodelled")
 		return 0, nil
+	}
+	// VRF backend (ADR 0010): committees are elected only when the previous epoch's input was of
+	// high quality, and only among nodes that submitted a proof during the previous epoch and
+	// have been registered since before the previous epoch transition.
+	vrfBlocked := e.vrf() && !in.VRFCanElect && !in.Sched.DebugAllowWeakAlpha
+	if e.vrf() {
+		if vrfBlocked {
+			st.Inc("probe.c14.vrf.committee_elections_blocked_by_weak_alpha")
+		} else {
+			st.Inc("probe.c14.vrf.committee_elections_allowed")
+		}
 	}
 	valEntities := map[staking.Address]bool{}
 	for _, v := range out.Pending {
@@ -889,6 +975,12 @@ func c14CheckCommittees(st *core.Stats, c *c14Capture) (int, *core.Violation) {
 				if ok && cs[role].ValidatorSet != nil && !valEntities[addr] {
 					ok, reason = false, "entity-not-in-validator-set"
 				}
+				if ok && e.vrf() && !in.Sched.DebugAllowWeakAlpha && !in.Status[i].IsEligibleForElection(in.Epoch) {
+					ok, reason = false, "vrf-registered-too-recently"
+				}
+				if ok && e.vrf() && !e.proved(n.ID) {
+					ok, reason = false, "vrf-no-proof"
+				}
 				if !ok {
 					if role == scheduler.RoleWorker && n.HasRoles(node.RoleComputeWorker) {
 						st.Inc("probe.c14.compute_node_excluded_" + reason)
@@ -924,6 +1016,9 @@ func c14CheckCommittees(st *core.Stats, c *c14Capture) (int, *core.Violation) {
 			case size < sizes[role]:
 				electable, why = false, fmt.Sprintf("%s pool %d below group size %d", role, size, sizes[role])
 			}
+		}
+		if vrfBlocked {
+			electable, why = false, "weak VRF alpha"
 		}
 		cms := byRuntime[rt.ID]
 		if len(cms) == 0 {
@@ -1007,6 +1102,9 @@ func c14CheckCommittees(st *core.Stats, c *c14Capture) (int, *core.Violation) {
 		}
 		elected++
 		st.Inc("probe.c14.committee_elected")
+		if e.vrf() {
+			st.Inc("probe.c14.vrf.committee_elected_from_proofs")
+		}
 	}
 	return elected, nil
 }
